@@ -154,11 +154,13 @@ const (
 	sigParserSwap   = "C16/race/graphql-parser/schema-manager-replaced-without-synchronisation"
 	sigTxnCallbacks = "C16/race/shared-txn/callback-lists-appended-without-lock"
 
-	sigRedeletePanic       = "C16/panic/client.(*Document).GetValue/collection-delete-of-invisible-document-with-index"
-	sigMergeCorruptedIndex = "C16/merge-lost/corrupted-index/local-write-overlaps-merge-on-indexed-collection"
-	sigIndexWriteSkew      = "C16/structure/index-content/write-overlaps-create-index"
-	sigIndexStaleDoc       = "C16/structure/index-content/collection-update-with-stale-document"
-	sigPushHeadsPanic      = "C16/fatal/unclosed-iterator/net.(*Peer).pushHeadsForAllDocs-returns-early"
+	sigRedeletePanic         = "C16/panic/client.(*Document).GetValue/collection-delete-of-invisible-document-with-index"
+	sigMergeCorruptedIndex   = "C16/merge-lost/corrupted-index/local-write-overlaps-merge-on-indexed-collection"
+	sigIndexWriteSkew        = "C16/structure/index-content/write-overlaps-create-index"
+	sigSharedTxnOpenIterator = "C16/fatal/shared-txn/unclosed-iterator-at-commit"
+	sigIndexLostUpdate       = "C16/accounting/index/lost-by-concurrent-change-of-another-index"
+	sigIndexStaleDoc         = "C16/structure/index-content/collection-update-with-stale-document"
+	sigPushHeadsPanic        = "C16/fatal/unclosed-iterator/net.(*Peer).pushHeadsForAllDocs-returns-early"
 )
 
 func isParserMethod(f string) bool {
@@ -170,6 +172,18 @@ func isTxnCallback(f string) bool {
 		return false
 	}
 	return true
+}
+
+// duringClose reports whether an access happened inside the shutdown of a node. Closing a node
+// while its background work is still running is not among the calls the property quantifies over.
+func duringClose(stk []string) bool {
+	return hasFrame(stk, func(f string) bool {
+		switch f {
+		case modPrefix + "internal/db.(*DB).Close", modPrefix + "node.(*Node).Close", modPrefix + "net.(*Peer).Close":
+			return true
+		}
+		return strings.HasSuffix(f, "verifharness/c16.(*runner).close")
+	})
 }
 
 // raceSignature reduces a report to its signature. caseSharedTxn tells whether
@@ -266,6 +280,11 @@ func fatalSignature(what, dump string, caseSharedTxn bool) string {
 	}
 	if strings.Contains(what, "Unclosed iterator") && hasFrame(stk, func(f string) bool { return f == modPrefix+"net.(*Peer).pushHeadsForAllDocs" }) {
 		return sigPushHeadsPanic
+	}
+	if caseSharedTxn && strings.Contains(what, "Unclosed iterator") && hasFrame(stk, func(f string) bool { return strings.HasSuffix(f, "verifharness/c16.(*runner).commit") }) {
+		// some call inside the shared transaction left an iterator open; the harness commits only
+		// after every user of the transaction has returned
+		return sigSharedTxnOpenIterator
 	}
 	return "C16/fatal/" + errClass(what) + "/" + topDefraFrame(stk)
 }
